@@ -120,7 +120,7 @@ class C09(Check):
     level = "exploration"
     rule = (
         "random transition graphs over 2-12 sessions from 1..0x7E {sparse, dense, chain, cycle, islands (component unreachable from the default session), "
-        "sessions reachable only through non-default sessions} x depth 1-5 x skip lists x thorough on/off x reset on/off x database on/off x tester-present "
+        "sessions reachable only through non-default sessions} x depth 1-5 x skip lists (integers in any order, or command-line range expressions with overlaps; incl. the default session, ids not in the graph, numeric neighbours) x response code of a refused change {0x7E/0x12 told apart, always 0x12, always 0x7E} x thorough on/off x reset on/off x database on/off x tester-present "
         "interval / off x latency and segmentation; every graph gives every session an edge to the default session. "
         "non-trivial = at least one session is reachable only at depth >= 2, lies beyond the depth limit, is skipped or unreachable; "
         "distinct = (graph shape class, depth, |result|, options)."
